@@ -17,7 +17,9 @@ theorem mem_flat_high (s : S) (off d y : OId) (hs : Sep s off) (hd : off ≤ d) 
   obtain ⟨p, hp, hq⟩ := h
   have h1 := hs.ports d p hp
   have h2 := hs.pins p y hq
-  omega
+  have hd' : ¬ d < off := Nat.not_lt.mpr hd
+  have hp' : ¬ p < off := fun h => hd' (h1.2 h)
+  exact Nat.not_lt.mp (fun h => hp' (h2.2 h))
 
 theorem partner_high (s : S) (off d d' q q' : OId) (hs : Sep s off) (hd : off ≤ d) (hd' : off ≤ d')
     (h : s.partner d d' q = some q') : off ≤ q ∧ off ≤ q' := by
@@ -34,7 +36,118 @@ theorem sep_firstRef (s : S) (off i d' : OId) (hs : Sep s off) (hi : off ≤ i) 
 theorem sep_dropRef (s : S) (off i : OId) (hs : Sep s off) (hi : off ≤ i) :
     Sep (s.dropRef i) off ∧ LowEq (s.dropRef i) s off := by
   obtain ⟨b1,b2,b3,b4,b5,b6,b7,b8,b9,b10,b11,b12,b13,b14,b15,b16,b17,b18,b19,b20,b21,b22⟩ := hs
+  have hkeep : ∀ w, w < off → (s.wirePins w).filter (fun r => !r.isOuterOf i) = s.wirePins w := by
+    intro w hw
+    rw [List.filter_eq_self]
+    intro r hr
+    cases r with
+    | inner q => rfl
+    | outer i' q =>
+      simp only [PinRef.isOuterOf, Bool.not_eq_true', beq_eq_false_iff_ne, ne_eq]
+      intro e; subst e
+      have := (b21 w i' q hr).1.1 hw
+      exact absurd this (Nat.not_lt.mpr hi)
   simp only [S.dropRef]
-  refine ⟨?_, ?_⟩ <;> constructor <;> grind [List.filter_eq_self, PinRef.isOuterOf]
+  refine ⟨?_, ?_⟩ <;> constructor <;> grind [PinRef.isOuterOf]
+
+theorem sep_repoint (s : S) (off i d d' : OId) (hs : Sep s off) (hi : off ≤ i) (hr : s.instRef i = some d) (hd' : off ≤ d') :
+    Sep (s.repoint i d d') off ∧ LowEq (s.repoint i d d') s off := by
+  have hd : off ≤ d := by
+    have := hs.instRef i d hr
+    exact Nat.not_lt.mp (fun h => (Nat.not_lt.mpr hi) (this.2 h))
+  have hf : ∀ y, y ∈ s.flat d' → off ≤ y := fun y hy => mem_flat_high s off d' y hs hd' hy
+  have hp := fun q q' => partner_high s off d d' q q' hs hd hd'
+  have hp' := fun q q' => partner_high s off d' d q q' hs hd' hd
+  have nlt : ∀ {a : OId}, off ≤ a → ¬ a < off := fun h => Nat.not_lt.mpr h
+  obtain ⟨b1,b2,b3,b4,b5,b6,b7,b8,b9,b10,b11,b12,b13,b14,b15,b16,b17,b18,b19,b20,b21,b22⟩ := hs
+  -- on low wires the re-keying map changes nothing
+  have hmap : ∀ w, w < off → (s.wirePins w).map (fun r => match r with
+        | .inner q => PinRef.inner q
+        | .outer i' q => if i' = i then (match s.partner d d' q with
+                                          | some q' => PinRef.outer i q'
+                                          | none => PinRef.outer i' q) else PinRef.outer i' q) = s.wirePins w := by
+    intro w hw
+    conv => rhs; rw [← List.map_id (s.wirePins w)]
+    apply List.map_congr_left
+    intro r hr'
+    cases r with
+    | inner q => rfl
+    | outer i' q =>
+      have := (b21 w i' q hr').1.1 hw
+      have hne : i' ≠ i := by intro e; subst e; exact nlt hi this
+      simp [hne]
+  simp only [S.repoint, S.repointWith]
+  refine ⟨⟨b1,b2,b3,b4,b5,b6,b7,b8,?_,?_,b11,b12,b13,b14,b15,b16,b17,b18,?_,?_,?_,?_⟩, ⟨?_, ?_, ?_⟩⟩
+  · intro i' q' w h
+    by_cases e : i' = i
+    · subst e
+      simp only [if_true] at h
+      cases hg : s.partner d' d q' with
+      | none => simp [hg] at h
+      | some q =>
+        simp only [hg] at h
+        have h9 := b9 i' q w h
+        have hq' := (hp' q' q hg).1
+        have hw : ¬ w < off := fun hw => nlt hi (h9.1.2 hw)
+        exact ⟨⟨fun a => absurd a (nlt hi), fun a => absurd a hw⟩, ⟨fun a => absurd a (nlt hq'), fun a => absurd a hw⟩⟩
+    · simp only [if_neg e] at h
+      exact b9 i' q' w h
+  · intro x y h
+    by_cases e : x = i
+    · subst e; simp at h; subst h
+      exact ⟨fun a => absurd a (nlt hi), fun a => absurd a (nlt hd')⟩
+    · simp only [if_neg e] at h; exact b10 x y h
+  · intro x y h
+    by_cases e : x = i
+    · subst e; simp only [if_true] at h
+      exact ⟨fun a => absurd a (nlt hi), fun a => absurd a (nlt (hf y h))⟩
+    · simp only [if_neg e] at h; exact b19 x y h
+  · intro w q h
+    simp only [List.mem_map] at h
+    obtain ⟨r, hr', he⟩ := h
+    cases r with
+    | inner q0 => simp at he; subst he; exact b20 w q0 hr'
+    | outer i0 q0 =>
+      simp only at he
+      split at he
+      · split at he <;> cases he
+      · cases he
+  · intro w i' q h
+    simp only [List.mem_map] at h
+    obtain ⟨r, hr', he⟩ := h
+    cases r with
+    | inner q0 => simp at he
+    | outer i0 q0 =>
+      have hb0 := b21 w i0 q0 hr'
+      simp only at he
+      split at he
+      · rename_i e0
+        split at he
+        · rename_i q1 hq1
+          simp only [PinRef.outer.injEq] at he
+          obtain ⟨rfl, rfl⟩ := he
+          have hw : ¬ w < off := fun hw => nlt hi (e0 ▸ hb0.1.1 hw)
+          exact ⟨⟨fun a => absurd a hw, fun a => absurd a (nlt hi)⟩, ⟨fun a => absurd a hw, fun a => absurd a (nlt (hp q0 q1 hq1).2)⟩⟩
+        · simp only [PinRef.outer.injEq] at he
+          obtain ⟨rfl, rfl⟩ := he
+          exact hb0
+      · simp only [PinRef.outer.injEq] at he
+        obtain ⟨rfl, rfl⟩ := he
+        exact hb0
+  · intro e i' h
+    by_cases e1 : i' = i
+    · subst e1; simp at h; subst h
+      exact ⟨fun a => absurd a (nlt hd'), fun a => absurd a (nlt hi)⟩
+    · simp only [if_neg e1] at h; exact b22 e i' h
+  · intro x hx
+    have hxi : x ≠ i := fun e => nlt hi (e ▸ hx)
+    simp only [hxi, if_false, true_and, and_true]
+    exact hmap x hx
+  · intro i' q hi' hq
+    have : i' ≠ i := fun e => nlt hi (e ▸ hi')
+    simp [this]
+  · intro e i' he hi'
+    have : i' ≠ i := fun e1 => nlt hi (e1 ▸ hi')
+    simp [this]
 
 end Spydr.IR
